@@ -22,6 +22,21 @@ protected partial unsafe macro syntax notation infix return for break continue t
 calc Type Prop Sort abbrev example axiom opaque set_option attribute""".split())
 
 INTLIT = ("intlit",)
+
+
+class LazyTy(object):
+    """Lean type of a declared external, printed when the unit is emitted: a struct type mentions the structure's type
+    parameters, which are only final once every function of the unit is translated"""
+    def __init__(self, unit, arg_tys, ret_ty, ret_wrap):
+        self.u, self.arg_tys, self.ret_ty, self.ret_wrap = unit, tuple(arg_tys), ret_ty, ret_wrap
+    def key(self): return (self.arg_tys, self.ret_ty, self.ret_wrap)
+    def __eq__(self, o): return isinstance(o, LazyTy) and self.key() == o.key()
+    def __hash__(self): return hash(repr(self.key()))
+    def __str__(self):
+        r = self.u.lt(self.ret_ty, False)
+        if self.ret_wrap: r = "(%s %s)" % (self.ret_wrap, r)
+        return " → ".join([self.u.lt(t, False) for t in self.arg_tys] + [r])
+    def __repr__(self): return str(self)
 UNIT = ("unit",)
 BOOL = ("bool",)
 
@@ -1179,7 +1194,7 @@ class FnTranslator:
     # ---- macros
     def macro_stmt(self, e, env, pre):
         name, toks, line = e[1], e[2], e[3]
-        if name in LOG_MACROS:
+        if name in LOG_MACROS or name in getattr(self.u, "log_macros", ()):
             self.dropped.append("%s! at line %d (logging: arguments not evaluated)" % (name, line))
             return
         if name in ("assert", "debug_assert"):
@@ -1254,6 +1269,13 @@ class FnTranslator:
 
     def assign(self, e, env, pre):
         _, op, l, r = e
+        try:
+            root = self.place_root(l)
+        except RsError:
+            root = None
+        if root is not None and env.get(root) == UNIT and getattr(self.u, "log_macros", ()):
+            self.dropped.append("assignment through the logging guard `%s` (value `()`)" % root)
+            return env
         lt_term, lty = self.place_get(l, env, []) if op != "=" or True else (None, None)
         if op == "=":
             term, t = self.expr(r, env, pre, lty)
@@ -1599,6 +1621,10 @@ class FnTranslator:
                 v = self.fresh()
                 pre.append(("bind", v, MCall("(Rs.panic : Rs.M %s)" % self.u.lt(want, False))))
                 return v, want
+            if e[1] in getattr(self.u, "log_macros", ()):
+                # declared logging-only macro used as a value (a guard object that only logs when dropped): `()`
+                self.dropped.append("%s! at line %d (declared logging-only: value `()`)" % (e[1], e[3]))
+                return "()", UNIT
             raise RsError("macro %s! in expression position is outside the subset" % e[1])
         if k == "struct": return self.struct_lit(e, env, pre)
         if k == "closure": raise RsError("closure outside a supported method argument")
@@ -1855,6 +1881,16 @@ class FnTranslator:
             v = self.fresh()
             pre.append(("bind", v, MCall("Rs.okOr %s %s" % (o, tag))))
             return v, ot[1]
+        if x[0] == "mcall" and x[2] == "map_err" and len(x[4]) == 1 and x[4][0][0] == "closure" and len(x[4][0][1]) == 1:
+            # `.map_err(|ve| ve.prepend_msg(..))?`: `prepend_msg` keeps the tag of a ValidationError, only the message changes
+            c = x[4][0]
+            body = c[2]
+            if body[0] == "block" and not body[1]: body = body[2]
+            pv = c[1][0]
+            pname = pv[1] if isinstance(pv, tuple) and pv[0] == "pvar" else (pv[0][1] if isinstance(pv, tuple) and isinstance(pv[0], tuple) and pv[0][0] == "pvar" else None)
+            if body is not None and body[0] == "mcall" and body[2] == "prepend_msg" and body[1] == ("path", [pname]):
+                self.dropped.append("map_err(prepend_msg): message only, the tag is kept")
+                return self.try_(("try", x[1]), env, pre, want)
         if x[0] in ("call", "mcall"):
             r = self.call_any(x, env, pre, want_result=True)
             if r[2] == "comp":
@@ -2070,7 +2106,11 @@ class FnTranslator:
         `self`), or `OpaqueType.method` for a method of a value of an opaque type (`recv` = (term, type), passed as
         the first argument).  A declared `Result<T, E>` is read as `Option<T>` (`Err(_)` -> `none`; only `.unwrap()`,
         `.ok()`, `.is_ok()`, `.is_err()`, `.unwrap_or(d)` are available on it).  `"drop": True`: the call is not
-        evaluated at all and yields `()` (for a value that is only the receiver of `policy_err!`)."""
+        evaluated at all and yields `()` (for a value that is only the receiver of `policy_err!`).  `"monadic": True` on a
+        declared `Result<T, E>`: the external has type `… → Rs.M T` (its `Err(e)` is a failure with the policy tag of `e`)
+        and can be used with `?`; `"partial": True` on any other type: `… → Rs.M T` (it may panic or overflow), bound
+        where it is called.  `StructType.method` (a struct imported from another file): receiver passed, as for opaque
+        types.  External types are printed when the unit is emitted (`LazyTy`)."""
         spec = self.u.externals[name]
         if spec.get("drop"):
             if args: raise RsError("dropped external %s with arguments" % name)
@@ -2079,25 +2119,36 @@ class FnTranslator:
         pts = [self.u.parse_type(s, self.impl) for s in spec["params"]]
         rt = self.u.parse_type(spec["ret"], self.impl)
         if len(pts) != len(args): raise RsError("external %s arity" % name)
-        terms, ltys = [], []
+        terms, atys = [], []
         if recv is not None:
             terms.append(recv[0] if " " not in recv[0] or recv[0].startswith("(") else "(" + recv[0] + ")")
-            ltys.append(self.u.lt(recv[1], False))
+            atys.append(recv[1])
         for a, pt in zip(args, pts):
             term, t = self.expr(a, env, pre, pt)
             self.check_ty(t, pt, "argument of external %s" % name)
             terms.append(term if " " not in term or term.startswith("(") else "(" + term + ")")
-        if rt[0] == "result":
+        monadic_ext = rt[0] == "result" and spec.get("monadic")
+        partial_ext = rt[0] != "result" and spec.get("partial")
+        if monadic_ext:
+            lty = LazyTy(self.u, atys + pts, rt[1], "Rs.M")      # `Err(e)` = a failure carrying the policy tag of `e`
+        elif partial_ext:
+            lty = LazyTy(self.u, atys + pts, rt, "Rs.M")         # a function that may panic / overflow
+        elif rt[0] == "result":
             rt = ("tryres", rt[1])
-            rl = "(Option %s)" % self.u.lt(rt[1], False)
+            lty = LazyTy(self.u, atys + pts, rt[1], "Option")
         else:
-            rl = self.u.lt(rt, False)
-        lty = " → ".join(ltys + [self.u.lt(t, False) for t in pts] + [rl])
+            lty = LazyTy(self.u, atys + pts, rt, None)
         ident = "ext_" + re.sub(r"\W+", "_", name)
         ops = []
-        for t in ([recv[1]] if recv is not None else []) + pts + [rt if rt[0] != "tryres" else rt[1]]:
+        for t in ([recv[1]] if recv is not None else []) + pts + [rt if rt[0] not in ("tryres", "result") else rt[1]]:
             self.u.opaques_of(t, ops)
         self.add_ext(ident, lty, ops)
+        if monadic_ext:
+            return ("%s %s" % (ident, " ".join(terms))).strip(), rt[1], "comp"
+        if partial_ext:
+            v = self.fresh()
+            pre.append(("bind", v, MCall(("%s %s" % (ident, " ".join(terms))).strip())))
+            return v, rt, "val"
         if not terms: return ident, rt, "val"
         return "(%s %s)" % (ident, " ".join(terms)), rt, "val"
 
@@ -2201,7 +2252,7 @@ class FnTranslator:
         if k == "map" and bt[1] == ("str",) and m == "contains_key" and len(args) == 1:
             kk, kt = self.expr(args[0], env, pre, ("str",)); self.check_ty(kt, ("str",), "map key")
             return "(Rs.smapGet %s %s).isSome" % (base, kk), BOOL, "val"
-        if k == "opaque" and (bt[1] + "." + m) in self.u.externals:
+        if k in ("opaque", "struct") and (bt[1] + "." + m) in self.u.externals:
             return self.call_external(bt[1] + "." + m, args, env, pre, recv=(base, bt))
         if k in ("map", "umap"):
             g, _, _ = self.map_fns(bt, m in ("get", "contains_key"))
